@@ -34,7 +34,30 @@ const (
 	evDisconnect                     // TCP dropped: Selected/NotSelected -> NotConnected
 	evClose                          // voluntary Close: any state -> NotConnected
 	evT7Timeout                      // T7 NOT-SELECTED dwell expired: NotSelected -> NotConnected (no-op otherwise)
+
+	// The *Committed variants are enqueued ONLY by the synchronous CAS commits (CommitConnected /
+	// CommitSelected / CommitSelectLost). The commit has ALREADY stored the state, and a LATER
+	// synchronous commit may have superseded it before run() gets to the event (a peer that pipelines
+	// Select.req + Deselect.req), so step() uses them for the deduped reaction/notify only and NEVER
+	// re-stores state — re-storing would replay a transition that has since been undone.
+	evTCPUpCommitted
+	evSelectAcceptedCommitted
+	evSelectLostCommitted
 )
+
+// base maps a *Committed event to the table event it stands for, reporting whether ev was one.
+func (ev fsmEvent) base() (fsmEvent, bool) {
+	switch ev { //nolint:exhaustive // only the three commit-backed variants map; every other event is its own base.
+	case evTCPUpCommitted:
+		return evTCPUp, true
+	case evSelectAcceptedCommitted:
+		return evSelectAccepted, true
+	case evSelectLostCommitted:
+		return evSelectLost, true
+	default:
+		return ev, false
+	}
+}
 
 // stateChange is one logical E37 transition, reported to the notifier as (prev -> next).
 type stateChange struct {
@@ -189,7 +212,7 @@ func (s *supervisor) State() ConnState {
 // only transition out of NotConnected is evTCPUp itself, so the CAS always succeeds in practice).
 func (s *supervisor) CommitConnected() (committed bool) {
 	if s.state.CompareAndSwap(uint32(NotConnectedState), uint32(NotSelectedState)) {
-		s.inject(evTCPUp)
+		s.inject(evTCPUpCommitted)
 
 		return true
 	}
@@ -206,7 +229,7 @@ func (s *supervisor) CommitConnected() (committed bool) {
 // Selected is a no-op returning false.
 func (s *supervisor) CommitSelected() (committed bool) {
 	if s.state.CompareAndSwap(uint32(NotSelectedState), uint32(SelectedState)) {
-		s.inject(evSelectAccepted)
+		s.inject(evSelectAcceptedCommitted)
 
 		return true
 	}
@@ -226,7 +249,7 @@ func (s *supervisor) CommitSelected() (committed bool) {
 // whether THIS call performed the commit; a call when not Selected is a no-op returning false.
 func (s *supervisor) CommitSelectLost() (committed bool) {
 	if s.state.CompareAndSwap(uint32(SelectedState), uint32(NotSelectedState)) {
-		s.inject(evSelectLost)
+		s.inject(evSelectLostCommitted)
 
 		return true
 	}
@@ -278,6 +301,10 @@ func (s *supervisor) step(ev fsmEvent) {
 		return
 	}
 
+	// A commit-backed event stands for its table event, but its state store already happened
+	// synchronously in the commit; see the *Committed constants.
+	ev, committed := ev.base()
+
 	cur := ConnState(s.state.Load())
 
 	// Test seam (T24b): lets a test deterministically interpose a concurrent CommitSelected between
@@ -308,11 +335,15 @@ func (s *supervisor) step(ev fsmEvent) {
 			// stale T7 disconnect; the session stays Selected and its evSelectAccepted fires the
 			// entering-Selected reaction. This makes "never torn down by a stale T7" hold BY
 			// CONSTRUCTION, with no TOCTOU.
-			if ev == evT7Timeout {
+			switch {
+			case committed:
+				// The synchronous commit stored this transition already, and a later commit may have
+				// superseded it (cur is then the NEWER state): never re-store, only react/notify below.
+			case ev == evT7Timeout:
 				if !s.state.CompareAndSwap(uint32(cur), uint32(next)) {
 					return // concurrent commit changed state; the T7 disconnect is stale — abandon it
 				}
-			} else {
+			default:
 				s.state.Store(uint32(next))
 			}
 		}
